@@ -1038,3 +1038,34 @@ package eventbus
 //@   props C01
 //@   requires h != nil && predicate != nil
 //@   ensures [C01.opt.filter] payload(h.filter) == predicate && dynType(h.filter) == typeOf(func(T) bool) && h.once == old(h.once) && h.async == old(h.async) && h.sequential == old(h.sequential)
+
+// ---------------------------------------------------------------- configuration setters and queries
+// (setters must complete before concurrent use begins - excluded from C03 by its statement)
+//@ func (*EventBus).SetPanicHandler
+//@   props C05
+//@   requires bus != nil
+//@   ensures [C05.set.panicHandler] bus.panicHandler == handler
+//@ func (*EventBus).SetBeforePublishHook
+//@   props C08
+//@   requires bus != nil
+//@   ensures [C08.set.before] bus.beforePublish == hook
+//@ func (*EventBus).SetAfterPublishHook
+//@   props C08
+//@   requires bus != nil
+//@   ensures [C08.set.after] bus.afterPublish == hook
+//@ func (*EventBus).SetPersistenceErrorHandler
+//@   props C13
+//@   requires bus != nil
+//@   ensures [C13.set.errHandler] bus.persistenceErrorHandler == handler
+//@ func (*EventBus).SetUpcastErrorHandler
+//@   props C17
+//@   requires bus != nil && bus.upcastRegistry != nil
+//@   ensures [C17.set.upcastErrHandler] bus.upcastRegistry.errorHandler == handler
+//@ func (*EventBus).IsPersistent
+//@   props C09
+//@   requires bus != nil
+//@   ensures [C09.ispersistent] result <==> bus.store != nil
+//@ func (*EventBus).GetStore
+//@   props C09
+//@   requires bus != nil
+//@   ensures [C09.getstore] result == bus.store
